@@ -71,7 +71,10 @@ def vmsa_task(task):
         sct = (C.unlimbs(g.base['sys']['SCTLR']) & ~((1 << 25) | (1 << 29) | (1 << 28) | 1 | (1 << 17) | 2)) | (1 << 22)
         st['sys']['SCTLR'] = limbs(sct | (ee << 25) | (afe << 29) | (tre << 28) | m)
         st['sys']['TTBCR'] = limbs(n | (rnd.getrandbits(1) << 4 if rnd.random() < 0.15 else 0) | (rnd.getrandbits(1) << 5 if rnd.random() < 0.15 else 0))
-        st['sys']['TTBR0'] = limbs(0x8000 | rnd.getrandbits(6))
+        # the TTBR0 table is aligned to 2^(14-N) only: place it at a non-16KiB-aligned slot when N > 0
+        slot = rnd.randrange(1 << n) if n else 0
+        t0off = slot << (14 - n)
+        st['sys']['TTBR0'] = limbs((0x8000 + t0off) | rnd.getrandbits(6))
         st['sys']['TTBR1'] = limbs(0x4000 | rnd.getrandbits(6))
         st['sys']['DACR'] = limbs(sum(rnd.choice([0, 1, 1, 3, 3, 2]) << (2 * d) for d in range(16)))
         st['sys']['PRRR'] = limbs(sum(rnd.choice([0, 1, 2, 2, 2]) << (2 * i) for i in range(8)) | (rnd.getrandbits(16) << 16))
@@ -85,6 +88,9 @@ def vmsa_task(task):
             put32(l1b, 4 * i, l1_desc(rnd), ee)
             put32(l1a, 4 * (i % 4096), l1_desc(rnd), ee)
             hot.append(i << 20)
+            j = rnd.randrange(1 << (12 - n))                    # an entry of the TTBR0 table proper (VA<31:32-N> = 0)
+            put32(l1a, t0off + 4 * j, l1_desc(rnd), ee)
+            hot.append(j << 20)
         for k in range(16):
             for _ in range(12):
                 j = rnd.randrange(256)
@@ -109,7 +115,7 @@ def vmsa_task(task):
         for kind in ('ldr', 'str'):
             st2 = {k2: (dict(v) if isinstance(v, dict) and k2 != 'mem' else v) for k2, v in st.items()}
             st2['mem'] = {'devs': st['mem']['devs'], 'base': [list(b) for b in st['mem']['base']]}
-            put32(st2['mem']['base'][2] if n == 0 or True else st2['mem']['base'][1], 0, (3 << 10) | 2 | (0 << 5), ee)   # VA 0..1MiB -> PA 0, AP=3, domain 0
+            put32(st2['mem']['base'][2], t0off, (3 << 10) | 2 | (0 << 5), ee)   # VA 0..1MiB -> PA 0, AP=3, domain 0
             st2['sys']['DACR'] = limbs((C.unlimbs(st2['sys']['DACR']) & ~3) | 1)
             st2['sys']['FCSEIDR'] = limbs(0)
             st2['sys']['SCTLR'] = limbs(C.unlimbs(st2['sys']['SCTLR']) | (1 << 28))
